@@ -293,6 +293,32 @@ class AtLeast(puan.Proposition):
             )
         )
 
+    def _occurrences(self) -> typing.List[puan.Proposition]:
+
+        """
+            Returns this proposition, its propositions and their sub propositions, once for every
+            time they occur (the list is not unique, see :meth:`flatten` for a unique list).
+
+            Examples
+            --------
+                >>> list(map(operator.attrgetter("id"), All(Any("x","y",variable="B"),"x",variable="A")._occurrences()))
+                ['A', 'B', 'x', 'y', 'x']
+
+            Returns
+            -------
+                out : List[Proposition]
+        """
+        return list(
+            itertools.chain(
+                [self],
+                *map(
+                    operator.methodcaller("_occurrences"),
+                    self.compound_propositions
+                ),
+                self.atomic_propositions
+            )
+        )
+
     def _dependencies(self) -> typing.List[typing.Tuple[puan.variable, typing.List[puan.variable]]]:
 
         """
@@ -405,7 +431,7 @@ class AtLeast(puan.Proposition):
                             maz.compose(
                                 len,
                                 set,
-                                functools.partial(map, hash),
+                                functools.partial(map, lambda x: (x.id, x.bounds.as_tuple())),
                                 itertools.chain.from_iterable,
                                 maz.fnmap(
                                     functools.partial(
@@ -429,7 +455,7 @@ class AtLeast(puan.Proposition):
                                         )
                                     )
                                 ),
-                                operator.methodcaller("flatten")
+                                operator.methodcaller("_occurrences")
                             ),
                             maz.compose(
                                 len,
@@ -438,7 +464,7 @@ class AtLeast(puan.Proposition):
                                     map, 
                                     operator.attrgetter("id")
                                 ),
-                                operator.methodcaller("flatten")
+                                operator.methodcaller("_occurrences")
                             ),
                         )
                     ),
@@ -453,7 +479,20 @@ class AtLeast(puan.Proposition):
                             operator.eq,   
                         ),
                         maz.fnmap(
-                            maz.compose(len, set, functools.partial(map, hash)),
+                            maz.compose(
+                                len, 
+                                set, 
+                                functools.partial(
+                                    map, 
+                                    lambda x: (
+                                        x.id, 
+                                        x.bounds.as_tuple(), 
+                                        int(x.sign), 
+                                        x.value, 
+                                        tuple(map(operator.attrgetter("id"), x.propositions))
+                                    )
+                                )
+                            ),
                             maz.compose(len, set, functools.partial(map, operator.attrgetter("id")))
                         ),
                         list,
@@ -461,7 +500,7 @@ class AtLeast(puan.Proposition):
                             filter,
                             lambda x: not issubclass(x.__class__, puan.variable),
                         ),
-                        operator.methodcaller("flatten")
+                        operator.methodcaller("_occurrences")
                     ),
 
 
@@ -481,7 +520,7 @@ class AtLeast(puan.Proposition):
                             map, 
                             lambda x: list(
                                 map(
-                                    lambda y: f"{x.id}-{y.id}",
+                                    lambda y: (x.id, y.id),
                                     x.propositions
                                 )
                             )
